@@ -2,3 +2,16 @@
 #![allow(dead_code, unused_imports)]
 use super::*;
 
+
+/// claims in Vec order: (peer, base bytes, prefix, timeout); cache sorted by address: (addr bytes, peer, timeout)
+pub fn dump<TS: TimeSource>(t: &ClaimTable<TS>) -> (Vec<(SocketAddr, Vec<u8>, u8, Time)>, Vec<(Vec<u8>, SocketAddr, Time)>) {
+    let claims = t
+        .claims
+        .iter()
+        .map(|e| (e.peer, e.claim.base.data[..e.claim.base.len as usize].to_vec(), e.claim.prefix_len, e.timeout))
+        .collect();
+    let mut cache: Vec<(Vec<u8>, SocketAddr, Time)> =
+        t.cache.iter().map(|(a, v)| (a.data[..a.len as usize].to_vec(), v.peer, v.timeout)).collect();
+    cache.sort();
+    (claims, cache)
+}
